@@ -24,9 +24,10 @@ import (
 	"pgregory.net/rapid"
 
 	"verifharness/hx"
+	"verifharness/wire"
 )
 
-func TestMain(m *testing.M) { hx.Main(m) }
+func TestMain(m *testing.M) { wire.Init(true); hx.Main(m) }
 
 // ---------------------------------------------------------------------------
 // the chain: raw TCP client -> HTTPProxy (real server) -> recording upstream
@@ -83,6 +84,7 @@ func newChain() *chain {
 	}))
 	cache := route.NewGlobCache(100)
 	c.px = httptest.NewServer(&proxy.HTTPProxy{
+		Stats:     wire.Stats(),
 		Config:    config.Proxy{NoRouteStatus: 0},
 		Transport: &http.Transport{DisableCompression: true, MaxIdleConnsPerHost: 4},
 		Lookup: func(r *http.Request) *route.Target {
@@ -541,6 +543,7 @@ func TestC07NoRoute(t *testing.T) {
 	cur.Store(0)
 	px := httptest.NewServer(http.HandlerFunc(func(w http.ResponseWriter, r *http.Request) {
 		p := &proxy.HTTPProxy{
+			Stats:     wire.Stats(),
 			Config:    config.Proxy{NoRouteStatus: cur.Load().(int)},
 			Transport: http.DefaultTransport,
 			Lookup: func(r *http.Request) *route.Target {
